@@ -6,7 +6,8 @@ Two parts: (1) sequential operation+fault histories (scenario / oracle / theorie
 
 H3: the real QMI_Context / qmi.start / qmi.stop run in a forked child under the deterministic runtime
 (dsched) on the fake network.  One child per history.  A history is a list of operations with the
-faults to inject (constructor raises, release_rpc_object raises, stop handler raises, TCP bind fails,
+faults to inject (constructor raises, release_rpc_object raises, stop handler raises - each with the exception CLASS
+as part of the fault: RuntimeError, a custom BaseException subclass, SystemExit, KeyboardInterrupt -, TCP bind fails,
 UDP bind fails, configured peer unreachable).  After EVERY operation the child records: the exception
 class, the managed QMI threads still alive (by class), the keys of the router's handler map and the
 context's object map (the private fields the property's anchors name), the log of release_rpc_object
@@ -32,6 +33,31 @@ KINDS = ["obj", "inst", "task"]
 FAULTS = ["none", "tcp", "udp", "peer"]
 
 
+class HarnessBase(BaseException):
+    """A BaseException that is not an Exception (what `except Exception` does not catch)."""
+
+
+# the CLASS of an injected fault is part of the fault: True = no fault; False / "exc" = RuntimeError;
+# "base" / "sysexit" / "kbint" = BaseException-only classes
+FCLASS = {"exc": RuntimeError, "base": HarnessBase, "sysexit": SystemExit, "kbint": KeyboardInterrupt}
+BASE_NAMES = ("HarnessBase", "SystemExit", "KeyboardInterrupt")
+
+
+def fkey(x):
+    """canonical fault key: None = no fault"""
+    if x is True or x == "ok":
+        return None
+    if x is False:
+        return "exc"
+    return x
+
+
+def fraise(x, what):
+    k = fkey(x)
+    if k is not None:
+        raise FCLASS[k](what)
+
+
 # ------------------------------------------------------------------------------------------------
 # the scenario (runs in the forked child, on its main thread = managed thread 0)
 # ------------------------------------------------------------------------------------------------
@@ -49,7 +75,7 @@ def scenario(s, mode, ops):
     s.recording = True
     CS.QMI_CONFIG = None
     N = dsched.FakeNet
-    st = {"next": 0, "rel": [], "hruns": [], "relfail": set()}
+    st = {"next": 0, "rel": [], "hruns": [], "relfail": {}}
     obs = []
     s.obs = obs
 
@@ -61,11 +87,9 @@ def scenario(s, mode, ops):
     class Obj(R.QMI_RpcObject):
         def __init__(self, context, name, ctor_ok, rel_ok):
             self.oid = fresh()
-            if not ctor_ok:
-                raise RuntimeError("ctor")
+            fraise(ctor_ok, "ctor")
             super().__init__(context, name)
-            if not rel_ok:
-                st["relfail"].add(self.oid)
+            st["relfail"][self.oid] = rel_ok
 
         @R.rpc_method
         def ping(self):
@@ -73,17 +97,14 @@ def scenario(s, mode, ops):
 
         def release_rpc_object(self):
             st["rel"].append(self.oid)
-            if self.oid in st["relfail"]:
-                raise RuntimeError("release")
+            fraise(st["relfail"].get(self.oid, True), "release")
 
     class Inst(I.QMI_Instrument):
         def __init__(self, context, name, ctor_ok, rel_ok):
             self.oid = fresh()
-            if not ctor_ok:
-                raise RuntimeError("ctor")
+            fraise(ctor_ok, "ctor")
             super().__init__(context, name)
-            if not rel_ok:
-                st["relfail"].add(self.oid)
+            st["relfail"][self.oid] = rel_ok
 
         @R.rpc_method
         def ping(self):
@@ -92,13 +113,11 @@ def scenario(s, mode, ops):
         def release_rpc_object(self):
             st["rel"].append(self.oid)
             super().release_rpc_object()
-            if self.oid in st["relfail"]:
-                raise RuntimeError("release")
+            fraise(st["relfail"].get(self.oid, True), "release")
 
     class Tsk(T.QMI_Task):
         def __init__(self, task_runner, name, ctor_ok):
-            if not ctor_ok:
-                raise RuntimeError("ctor")
+            fraise(ctor_ok, "ctor")
             super().__init__(task_runner, name)
 
         def run(self):
@@ -110,8 +129,7 @@ def scenario(s, mode, ops):
             self.oid = fresh()
             rel_ok = task_kwargs.pop("rel_ok")
             super().__init__(context, name, task_class, task_args, task_kwargs)
-            if not rel_ok:
-                st["relfail"].add(self.oid)
+            st["relfail"][self.oid] = rel_ok
 
         @R.rpc_method
         def ping(self):
@@ -120,8 +138,7 @@ def scenario(s, mode, ops):
         def release_rpc_object(self):
             st["rel"].append(self.oid)
             super().release_rpc_object()
-            if self.oid in st["relfail"]:
-                raise RuntimeError("release")
+            fraise(st["relfail"].get(self.oid, True), "release")
 
     # the internal $context object of every context gets an id and a release counter too
     orig_init = C._ContextRpcObject.__init__
@@ -287,8 +304,8 @@ def scenario(s, mode, ops):
 
             def handler(hid=hid, bad=op[1]):
                 st["hruns"].append(hid)
-                if bad:
-                    raise RuntimeError("stop handler")
+                if bad is not False and bad != "ok":
+                    fraise(False if bad is True else bad, "stop handler")
             ctx.register_stop_handler(handler)
             return ("ok",)
         if k == "connect":
@@ -333,7 +350,7 @@ def scenario_conc(s, pop, bop, nhandlers, line_yields):
     logging.disable(logging.CRITICAL)
     warnings.simplefilter("ignore")
     real_threading.excepthook = lambda args: None
-    st = {"next": 0, "rel": [], "born": [], "relfail": set(), "names": {}}
+    st = {"next": 0, "rel": [], "born": [], "relfail": {}, "names": {}}
     labels = []
     obs = {"a": None, "b": None, "labels": labels}
     s.obs = obs
@@ -350,8 +367,7 @@ def scenario_conc(s, pop, bop, nhandlers, line_yields):
         st["born"].append(o.oid)
         st["names"][o.oid] = name
         labels.append((who(), "born", name_idx(name)))
-        if not rel_ok:
-            st["relfail"].add(o.oid)
+        st["relfail"][o.oid] = rel_ok
 
     def released(o):
         st["rel"].append(o.oid)
@@ -360,8 +376,7 @@ def scenario_conc(s, pop, bop, nhandlers, line_yields):
     class Obj(R.QMI_RpcObject):
         def __init__(self, context, name, ctor_ok, rel_ok):
             self.oid = fresh()
-            if not ctor_ok:
-                raise RuntimeError("ctor")
+            fraise(ctor_ok, "ctor")
             super().__init__(context, name)
             born(self, name, rel_ok)
 
@@ -371,27 +386,23 @@ def scenario_conc(s, pop, bop, nhandlers, line_yields):
 
         def release_rpc_object(self):
             released(self)
-            if self.oid in st["relfail"]:
-                raise RuntimeError("release")
+            fraise(st["relfail"].get(self.oid, True), "release")
 
     class Inst(I.QMI_Instrument):
         def __init__(self, context, name, ctor_ok, rel_ok):
             self.oid = fresh()
-            if not ctor_ok:
-                raise RuntimeError("ctor")
+            fraise(ctor_ok, "ctor")
             super().__init__(context, name)
             born(self, name, rel_ok)
 
         def release_rpc_object(self):
             released(self)
             super().release_rpc_object()
-            if self.oid in st["relfail"]:
-                raise RuntimeError("release")
+            fraise(st["relfail"].get(self.oid, True), "release")
 
     class Tsk(T.QMI_Task):
         def __init__(self, task_runner, name, ctor_ok):
-            if not ctor_ok:
-                raise RuntimeError("ctor")
+            fraise(ctor_ok, "ctor")
             super().__init__(task_runner, name)
 
         def run(self):
@@ -408,8 +419,7 @@ def scenario_conc(s, pop, bop, nhandlers, line_yields):
         def release_rpc_object(self):
             released(self)
             super().release_rpc_object()
-            if self.oid in st["relfail"]:
-                raise RuntimeError("release")
+            fraise(st["relfail"].get(self.oid, True), "release")
 
     orig_init = C._ContextRpcObject.__init__
     orig_rel = C._ContextRpcObject.release_rpc_object
@@ -590,8 +600,8 @@ def oracle_conc(pop, bop, res):
         return "conc:%s:b-unfinished" % kind, "the racing operation did not finish"
     if b[0] == "exc":
         ok = set(ALLOWED_B[kind])
-        if kind == "make" and not bop[3]:
-            ok |= {"RuntimeError", "QMI_TaskInitException"}          # the injected constructor failure
+        if kind == "make" and fkey(bop[3]) is not None:
+            ok |= {FCLASS[fkey(bop[3])].__name__, "QMI_TaskInitException"}   # the injected constructor failure, whatever its class
         if b[1] not in ok:
             return "conc:%s:b-exception:%s" % (kind, b[1]), "the %s racing with stop() failed with %s (not a usage / invalid-operation / unknown-name error); unreleased %r, threads left %r" % (kind, b[1], unrel, o["threads"])
     if unrel:
@@ -606,7 +616,7 @@ def oracle_conc(pop, bop, res):
 
 
 BRES = {"QMI_UnknownNameException": "BUnknown", "QMI_InvalidOperationException": "BInvalid",
-        "QMI_DuplicateNameException": "BDup", "RuntimeError": "BCtor", "QMI_TaskInitException": "BCtor"}
+        "QMI_DuplicateNameException": "BDup", "QMI_TaskInitException": "BCtor"}
 LABS = {"unreg": "LUnreg", "unreg-failed": "LUnregFail", "stopped": "LStopped", "reserve": "LReserve", "publish": "LPublish",
         "reg": "LReg", "delname": "LDelname", "delname-keyerror": "LDelnameErr"}
 
@@ -631,6 +641,8 @@ def coq_conc_case(pop, bop, o, reg_atomic):
             bseen = True
     b = o["b"] or ["exc", "?"]
     bres = "BOk" if b[0] == "ok" else BRES.get(b[1], "BOther")
+    if b[0] == "exc" and bop[0] == "make" and fkey(bop[3]) is not None and b[1] == FCLASS[fkey(bop[3])].__name__:
+        bres = "BCtor"
     if b[0] == "exc" and not bseen and bres in ("BUnknown", "BInvalid", "BDup"):
         if bres == "BDup":
             tr.insert(0, "(false, LRaise BDup)")      # the duplicate check precedes stop's collect region
@@ -638,14 +650,14 @@ def coq_conc_case(pop, bop, o, reg_atomic):
             tr.append("(false, LRaise %s)" % bres)
     order = [0] + [p[0] for p in pop]
     return "(%s, %d, %s, %s, %s, %s, (%s, %s, %d, %d))" % (
-        cbool(reg_atomic), bop[1], cbool(bop[3] if bop[0] == "make" else True), clist([str(x) for x in order]),
+        cbool(reg_atomic), bop[1], cbool(fkey(bop[3]) is None if bop[0] == "make" else True), clist([str(x) for x in order]),
         cbool(bop[0] == "make"), clist(tr), cbool(o["a"] == ["ok"]), bres, len(o["rel"]), o["threads"].get("_RpcThread", 0))
 
 
 def gen_conc(rng):
     npop = rng.choice([0, 1, 1, 2, 2, 3])
     names = rng.sample([1, 2, 3, 4], npop)
-    pop = [(n, rng.choice(KINDS), rng.random() < 0.7, rng.random() < 0.7) for n in names]
+    pop = [(n, rng.choice(KINDS), True if rng.random() < 0.7 else rng.choice(FKEYS), rng.random() < 0.7) for n in names]
     r = rng.random()
     if r < 0.45 and names:
         bop = ("remove", rng.choice(names))
@@ -654,7 +666,8 @@ def gen_conc(rng):
     else:
         free = [n for n in [1, 2, 3, 4] if n not in names]
         n = rng.choice(free) if (free and rng.random() < 0.85) or not names else rng.choice(names)
-        bop = ("make", n, rng.choice(KINDS), rng.random() < 0.8, rng.random() < 0.7, rng.random() < 0.7)
+        bop = ("make", n, rng.choice(KINDS), True if rng.random() < 0.75 else rng.choice(FKEYS),
+               True if rng.random() < 0.7 else rng.choice(FKEYS), rng.random() < 0.7)
     return pop, bop, rng.choice([0, 0, 1, 2])
 
 
@@ -689,7 +702,7 @@ def coq_op(op):
     if k == "qstop":
         return "QStop"
     if k == "make":
-        return "Make %d %s %s %s" % (op[1], CKIND[op[2]], cbool(op[3]), cbool(op[4]))
+        return "Make %d %s %s %s" % (op[1], CKIND[op[2]], cbool(fkey(op[3]) is None), cbool(fkey(op[4]) is None))
     if k == "remove":
         return "Remove %d" % op[1]
     if k == "get":
@@ -697,10 +710,16 @@ def coq_op(op):
     if k == "call":
         return "Call %d" % op[1]
     if k == "addh":
-        return "AddH %s" % cbool(op[1])
+        hk = hkey(op[1])
+        return "AddH %s" % ("HOk" if hk is None else "HExc" if hk == "exc" else "HBase")
     if k == "connect":
         return "Connect %s" % cbool(op[1])
     raise ValueError(op)
+
+
+def hkey(x):
+    """stop-handler fault key (legacy encoding: True = raises RuntimeError, False = returns)"""
+    return None if (x is False or x == "ok") else fkey(False if x is True else x)
 
 
 def name_idx(k):
@@ -716,8 +735,10 @@ def coq_out(op, out):
         return "(OVal %d)" % out[1]
     if out[0] == "exc":
         c = out[1]
-        if op[0] == "make" and c in ("RuntimeError", "QMI_TaskInitException"):
-            return "(OExc ECtor)"
+        if op[0] == "make" and fkey(op[3]) is not None and c in ("QMI_TaskInitException", FCLASS[fkey(op[3])].__name__):
+            return "(OExc ECtor)"                      # the injected constructor fault, whatever its class
+        if op[0] in ("cstop", "qstop") and c in BASE_NAMES:
+            return "(OExc EBase)"
         return "(OExc %s)" % EXN.get(c, "EOther")
     return "(OExc EOther)"
 
@@ -757,6 +778,7 @@ def oracle(mode, ops, res):
     stale_below = 0            # proxies with index < this belong to a stopped / replaced context
     dead = False               # the current context object was stopped (or torn down)
     h_total = 0                # stop handlers registered so far (their ids are 0, 1, ...)
+    hcls_ctx = []              # fault classes of the stop handlers registered on the current context object
     have_ctx = False
     for i, (op, o) in enumerate(zip(ops, obs)):
         k, out = op[0], o["out"]
@@ -802,12 +824,12 @@ def oracle(mode, ops, res):
             dead = True
             stale_below = o["nprox"]
         elif k == "new" and ok:
-            have_ctx, dead, nh_ctx, h_base = True, False, 0, h_total
+            have_ctx, dead, nh_ctx, h_base, hcls_ctx = True, False, 0, h_total, []
             stale_below = o["nprox"]
             if o["rpc"] != prev["rpc"] + 1 or hk != ["$context"]:
                 return bad("new", "a fresh context does not have exactly its $context object")
         elif k == "qstart" and ok:
-            have_ctx, dead, nh_ctx, h_base = True, False, 0, h_total
+            have_ctx, dead, nh_ctx, h_base, hcls_ctx = True, False, 0, h_total, []
             stale_below = prev["nprox"]
             if not (o["active"] and o["reg"] and o["ev"] == prev["ev"] + 1 and o["listen"] and hk == ["$context"]):
                 return bad("start", "qmi.start returned but the context is not up")
@@ -839,6 +861,11 @@ def oracle(mode, ops, res):
             dead = True
             stale_below = o["nprox"]
         elif k in ("cstop", "qstop") and exc and have_ctx and not dead and prev["active"]:
+            if out[1] in BASE_NAMES and any(h in ("base", "sysexit", "kbint") for h in hcls_ctx):
+                return bad("stop-handler-baseexception",
+                           "a stop handler raised %s (a BaseException that is not an Exception): stop() was aborted, the context is "
+                           "still active=%r with %d objects alive, released so far %r, handlers run %r of %d" % (
+                               out[1], o["active"], len(live), o["rel"][len(prev["rel"]):], o["hruns"][len(prev["hruns"]):], nh_ctx))
             return bad("stop-raised", "stop of an active context raised")
         elif k == "make":
             n = op[1]
@@ -850,13 +877,13 @@ def oracle(mode, ops, res):
                         o["objmap"], hk, o["rpc"], o["task"]))
                 if 1 <= n <= NVALID and NAMES[n] in live_prev and prev["active"] and out[1] != "QMI_DuplicateNameException":
                     return bad("duplicate-class", "duplicate name not reported as such")
-                if (1 <= n <= NVALID and prev["active"] and NAMES[n] not in [x for x, _ in prev["objmap"]] and op[3]
+                if (1 <= n <= NVALID and prev["active"] and NAMES[n] not in [x for x, _ in prev["objmap"]] and fkey(op[3]) is None
                         and (mode == "direct" or prev["reg"])):
                     return bad("free-name-refused", "a free valid name in an active context was refused")
             elif ok:
                 if NAMES[n] in live_prev:
                     return bad("duplicate-accepted", "a second object was created under a live name")
-                if not (1 <= n <= NVALID) or not prev["active"] or not op[3]:
+                if not (1 <= n <= NVALID) or not prev["active"] or fkey(op[3]) is not None:
                     return bad("make-accepted", "make succeeded with an invalid name / inactive context / failing constructor")
                 if live != live_prev + [NAMES[n]] and sorted(live) != sorted(live_prev + [NAMES[n]]):
                     return bad("make-tables", "object map after make: %r" % (o["objmap"],))
@@ -885,6 +912,7 @@ def oracle(mode, ops, res):
         elif k == "addh" and ok:
             nh_ctx += 1
             h_total += 1
+            hcls_ctx.append(hkey(op[1]))
         # -- table agreement (after the op-specific checks so that their messages win)
         if hk != sorted(live):
             return bad("handlers-vs-objects", "handler map keys %r differ from the live object names %r" % (hk, sorted(live)))
@@ -914,10 +942,19 @@ SCRIPTED = [
     ("direct", [("new",), ("cstart", "tcp"), ("cstart", "none"), ("cstop",), ("new",), ("cstart", "none"), ("cstop",)]),
     ("direct", [("new",), ("cstart", "udp"), ("new",), ("cstart", "none"), ("make", 1, "obj", True, True, False), ("cstop",)]),
     ("direct", [("new",), ("remove", 0), ("cstart", "tcp"), ("new",), ("cstart", "none"), ("cstop",)]),
+    # fault classes: a constructor failing with a BaseException that is not an Exception must free the name as well
+    ("direct", [("new",), ("cstart", "none"), ("make", 1, "obj", "sysexit", True, False), ("make", 1, "obj", True, "kbint", False),
+                ("make", 2, "inst", "base", True, False), ("make", 2, "inst", "kbint", True, False), ("make", 2, "task", "sysexit", True, False),
+                ("make", 2, "inst", True, "base", True), ("remove", 2), ("make", 2, "task", True, "sysexit", True), ("addh", "exc"), ("cstop",)]),
+    ("single", [("qstart", "none"), ("make", 1, "inst", "kbint", True, False), ("make", 1, "obj", True, "sysexit", False), ("addh", "exc"),
+                ("addh", "base"), ("addh", False), ("qstop",), ("qstop",), ("qstart", "none")]),
     ("direct", [("new",), ("cstart", "none"), ("make", 1, "obj", False, True, False), ("make", 1, "obj", True, True, False),
                 ("remove", 1), ("make", 1, "inst", True, False, True), ("remove", 1), ("remove", 1), ("make", 1, "task", True, True, True),
                 ("get", 1), ("cstop",), ("call", 2)]),
 ]
+
+
+FKEYS = ["exc", "exc", "base", "sysexit", "kbint"]
 
 
 def gen_history(rng):
@@ -945,7 +982,8 @@ def gen_history(rng):
         if r < 0.36:
             nm = rng.choice(pool) if rng.random() < 0.9 else rng.randint(0, len(NAMES) - 1)
             ok = rng.random() < 0.72
-            ops.append(("make", nm, rng.choice(KINDS), ok, rng.random() < 0.7, rng.random() < 0.7))
+            ops.append(("make", nm, rng.choice(KINDS), True if ok else rng.choice(FKEYS), True if rng.random() < 0.7 else rng.choice(FKEYS),
+                        rng.random() < 0.7))
             if ok and 1 <= nm <= NVALID:
                 made.append(nm)
                 nprox += 1
@@ -961,7 +999,7 @@ def gen_history(rng):
         elif r < 0.67:
             ops.append(("call", rng.randint(0, max(0, nprox - 1)) if rng.random() < 0.9 else nprox + 3))
         elif r < 0.74:
-            ops.append(("addh", rng.random() < 0.5))
+            ops.append(("addh", False if rng.random() < 0.5 else rng.choice(["exc", "exc", "exc", "exc", "base", "sysexit", "kbint"])))
         elif r < 0.79:
             ops.append(("connect", rng.random() < 0.7))
         elif r < 0.89:
@@ -979,7 +1017,7 @@ def classify(ck, mode, ops, obs):
     for op, o in zip(ops, obs):
         tag = op[0] + (":" + str(op[1]) if op[0] in ("cstart", "qstart") else "")
         if op[0] == "make":
-            tag += ":" + op[2] + ("" if op[3] else ":ctor-raises")
+            tag += ":" + op[2] + ("" if fkey(op[3]) is None else ":ctor-raises-" + fkey(op[3]))
         ck.count("op:%s:%s" % (tag, o["out"][0] if o["out"][0] != "exc" else o["out"][1]))
     stops = [o for op, o in zip(ops, obs) if op[0] in ("cstop", "qstop") and o["out"][0] == "ok"]
     for op, o, p in zip(ops[1:], obs[1:], obs[:-1]):
@@ -1012,7 +1050,11 @@ def run(ck):
         "(make||make, remove||remove, anything racing with start) are not explored",
         "the interleaving model (ConcModel.v) treats each region under _rpc_object_map_lock, each register/unregister and each manager.stop() "
         "as atomic; its theorems are reflection proofs over 32+32 listed finite instances (<= 3 objects), not over arbitrary populations",
-        "faults are exceptions of class Exception raised by constructors, release_rpc_object, stop handlers, socket.bind and connect",
+        "the CLASS of an injected fault is part of the fault: constructors, release_rpc_object and stop handlers raise RuntimeError, a custom "
+        "BaseException subclass, SystemExit or KeyboardInterrupt (sequential histories; constructors and release steps also in the concurrent "
+        "scenarios, whose stop handlers raise RuntimeError only because a handler abort happens before any racing region); bind / connect "
+        "faults are OSError / ConnectionRefusedError; the model distinguishes Exception-like from BaseException-only exactly where the code's "
+        "handlers do (the `except Exception` around stop handlers)",
         "OS-level release of sockets is observed on the fake network only",
     ]
     _preload()
@@ -1049,24 +1091,24 @@ def run(ck):
                    "threads_rpc_ev_task": [(o["rpc"], o["ev"], o["task"]) for o in obs]}, 3)
     bad = ck.run_model("C12.Corr", "check_case", terms, "case", shard=100)
     ck.coverage["histories_not_matching_demanded_model"] = len(bad)
-    # histories on which the code does not behave as C12 demands: they must be exactly the ones the oracle flagged as a
-    # failed-start finding, and they must match the transcription of the tree as it is
+    # histories on which the code does not behave as C12 demands: they must be exactly the ones the oracle flagged as the
+    # stop-handler-BaseException finding, and they must match the transcription of the tree as it is (variant Tree)
     bad2 = set()
     if bad:
-        sub = ck.run_model("C12.Corr", "check_case_cur", [terms[i] for i in bad], "case", shard=100)
+        sub = ck.run_model("C12.Corr", "check_case_tree", [terms[i] for i in bad], "case", shard=100)
         bad2 = set(bad[j] for j in sub)
     ck.coverage["histories_matching_only_the_current_tree_variant"] = len(bad) - len(bad2)
     nrep = 0
     for i in bad:
         rep, obs = tmeta[i]
         fl = flagged.get(i)
-        if i not in bad2 and fl and fl[0].startswith("failed-start:"):
+        if i not in bad2 and fl and fl[0] == "stop-handler-baseexception":
             continue
         if nrep >= 3:
             break
         nrep += 1
         case = terms[i]
-        d = ck.model_eval("C12.Corr", "(diff_at Fixed %s, diff_at Current %s)" % (case, case))
+        d = ck.model_eval("C12.Corr", "(diff_at Fixed %s, diff_at Tree %s)" % (case, case))
         ck.report("corr:%s" % ("oracle-fails" if fl else "model-differs"),
                   "implementation and Coq model disagree on a history (first differing step (demanded, current-tree) = %s)%s" % (
                       d[-60:], ": " + fl[1] if fl else " (the property oracle passes on it)"),
